@@ -16,12 +16,15 @@ apply() { git apply "$1" 2>>"$log" || git apply --3way "$1" 2>>"$log"; }
 if ! apply "$src/patch.diff"; then echo "RESULT $name patch-does-not-apply"; git checkout -q -- .; exit 1; fi
 git diff > /tmp/confirm-patch-$name.diff
 extra=""; [ "$crate" = "ic-btc-canister" ] && extra="--lib --bins"
-cargo test -p "$crate" --offline -j 10 --no-fail-fast $extra >>"$log" 2>&1
-suite=$(python3 - "$log" "$crate" <<'PY'
+for sc in ${SUITE_CRATES:-$crate}; do
+  e=""; [ "$sc" = "ic-btc-canister" ] && e="--lib --bins"
+  cargo test -p "$sc" --offline -j 10 --no-fail-fast $e >>"$log" 2>&1
+done
+suite=$(python3 - "$log" "${SUITE_CRATES:-$crate}" <<'PY'
 import json,re,sys
-log=open(sys.argv[1]).read(); crate=sys.argv[2]
+log=open(sys.argv[1]).read(); crates=sys.argv[2].split()
 b=json.load(open('/root/.vp/BASELINE.json'))
-sp=[s for s in b['stable_pass'] if s.startswith(crate+'::')]
+sp=[s for s in b['stable_pass'] if any(s.startswith(c+'::') for c in crates)]
 res={}
 for m in re.finditer(r'^test (\S+)(?: - should panic)? \.\.\. (ok|FAILED|ignored)',log,re.M): res[m.group(1)]=m.group(2)
 bad=[s for s in sp if res.get(re.sub(r'^bin/[^:]+::','',s.split('::',1)[1]))!='ok']
